@@ -14,7 +14,7 @@ DETAIL_FIELDS = {
 
 def probe_points(L, tname, value):
     lo, hi = L.limits(tname)
-    pts = {lo, hi, 0, value}
+    pts = {lo, hi, 0} | ({value} if isinstance(value, int) else set())  # (a response decoded without a command code: value None)
     for a, b in L.allowed(tname):
         pts.update((a - 1, a, a + 1, b - 1, b, b + 1))
     return sorted(p for p in pts if lo <= p <= hi)
